@@ -471,7 +471,7 @@ impl Prop for C03 {
     }
     fn phases(&self, tier: Tier) -> Vec<PhaseSpec> {
         let n = self.layouts(tier).len() as u64;
-        vec![ph("all-ordered-layout-pairs", n * n)]
+        vec![ph("all-ordered-layout-pairs", n * n), ph("python-facing operator methods on overlapping / permuted variable lists", tier.pick(6_000, 300_000))]
     }
     fn exhaustive(&self, _tier: Tier) -> bool {
         true
@@ -502,6 +502,11 @@ impl Prop for C03 {
                 v.push(format!("sum:{}:{}", t, rel));
             }
         }
+        for t in ["Dual", "Dual2"] {
+            for m in ["__add__", "__rsub__", "__rtruediv__", "__eq__:equal-value", "__lt__:other-value"] {
+                v.push(format!("py:{}:{}", t, m));
+            }
+        }
         v
     }
     fn min_evaluations(&self, tier: Tier) -> u64 {
@@ -514,6 +519,17 @@ impl Prop for C03 {
         vec!["variable order of the result is not asserted (only the set)".into(), "remainder cases with a/b within 1e-6 of an integer are skipped (the jump)".into()]
     }
     fn run_case(&mut self, ctx: &mut Ctx, _phase: usize, idx: u64, rng: &mut Rng) {
+        if _phase == 1 {
+            // the Python-facing operators and comparisons: operands drawn over one small name pool, so that
+            // subsets, supersets, permutations and disjoint lists all occur; compared with the core by name
+            if idx % 2 == 0 {
+                super::pylayer::dual_layer(ctx, "C03", rng);
+            } else {
+                super::pylayer::dual2_layer(ctx, "C03", rng);
+            }
+            ctx.distinct(crate::util::hash_u64s(&[0x9e, idx]));
+            return;
+        }
         let (lays, npool) = match ctx.tier {
             Tier::Quick => (&self.layouts4, 4),
             Tier::Thorough => (&self.layouts5, 5),
